@@ -349,6 +349,7 @@ def c05(tier, seed):
               "after the terminal action the context runs out of work without the clock advancing, completion codes as documented. " + SHAPE)
     ck.require("sim.terminal_placements", 100)
     ck.require("sim.drain_checks_passed", 100)
+    ck.require("sim.requests_aborted_after_total_or_partial_signal", 20)
     return ck.finish()
 
 
@@ -373,6 +374,7 @@ def c07(tier, seed):
               "points on an established healthy connection with no write pending and quota free, no accepted publish is still untransmitted. " + SHAPE)
     ck.require("sim.quota_saturations", 100)
     ck.require("sim.progress_points_checked", 100)
+    ck.require("sim.requests_aborted_after_total_or_partial_signal", 20)
     return ck.finish()
 
 
